@@ -11,6 +11,8 @@ import (
 	"strconv"
 	"strings"
 	"sync"
+	"sync/atomic"
+	"syscall"
 	"time"
 
 	"github.com/ChrisTrenkamp/xsel"
@@ -27,9 +29,9 @@ import (
 func init() {
 	Register(&Monitor{
 		ID: "C15",
-		Rule: "hostile inputs to every public entry point, executed in child processes that journal each case (kind and raw input) before running it: random bytes; valid expressions/documents mutated at byte and token level; grammar-aware extremes (nested parentheses, operator chains, long step/predicate chains, very long names) sized for the super-linear GLL parser; XML/HTML/JSON with deep nesting and pathological constructs; every expression of a pool against every document of a pool; bindings with nil values and user functions that return (nil,nil), an error or panic; Unmarshal targets nil / non-pointers / nil pointers / pointer chains / maps / arrays / channels / funcs / interfaces; Exec with a nil cursor and a nil or zero Grammar; well-typed random queries over the whole builtin palette; " +
-			"oracle: every call returns within the watchdog and returns (value, nil) or (_, error): a panic escaping the API, a dead child (attributed to the journaled case), or (nil, nil) is a violation; for well-typed queries an error containing 'xpath query panic' is a violation. distinct_nontrivial = distinct (entry point, input class, outcome) triples where the outcome is not a plain success",
-		Assumptions: []string{"a watchdog firing is re-run alone before it counts; the watchdog is ≥ 10^4 x the typical case time", "inputs are sized so that the pinned tree answers each within seconds (GLL parsing is super-linear)"},
+		Rule: "hostile inputs to every public entry point, executed in child processes that journal each case (kind and raw input) before running it: random bytes; valid expressions/documents mutated at byte and token level; grammar-aware extremes (nested parentheses, flat chains of up to 120 operands for every binary operator with operands that decide / do not decide the result early, long step/predicate chains, very long names) sized for the super-linear GLL parser; XML/HTML/JSON with deep nesting and pathological constructs; every expression of a pool against every document of a pool; bindings with nil values and user functions that return (nil,nil), an error or panic; Unmarshal targets nil / non-pointers / nil pointers / pointer chains / maps / arrays / channels / funcs / interfaces; Exec with a nil cursor and a nil or zero Grammar; well-typed random queries over the whole builtin palette; " +
+			"oracle: every call returns within the per-case budget of 30 s of the child's processor time (rusage, not wall-clock; >= 10^3 x the slowest case on the unchanged tree) and returns (value, nil) or (_, error): a case over the budget (child stops, parent resumes after it), a panic escaping the API, a dead child (attributed to the journaled case), or (nil, nil) is a violation; for well-typed queries an error containing 'xpath query panic' is a violation. distinct_nontrivial = distinct (entry point, input class, outcome) triples where the outcome is not a plain success",
+		Assumptions: []string{"'terminates' is decided as 'returns within 30 s of processor time' for inputs of the generated sizes; the 20 min wall-clock watchdog around a shard only makes the run inconclusive", "inputs are sized so that the pinned tree answers each within seconds (GLL parsing is super-linear)"},
 		NCases:      func(tier string) int { return 0 },
 		Post:        c15Run,
 	})
@@ -109,7 +111,7 @@ func c15Gen(g *rng.R) c15Case {
 		return c15Case{"expr/mutated", mutate(rng.Pick(g, c15Exprs))}
 	case k < 43:
 		n := g.Range(1, 120)
-		switch g.Intn(6) {
+		switch g.Intn(9) {
 		case 0:
 			return c15Case{"expr/extreme", strings.Repeat("(", n) + "1" + strings.Repeat(")", n)}
 		case 1:
@@ -120,9 +122,23 @@ func c15Gen(g *rng.R) c15Case {
 			return c15Case{"expr/extreme", "a" + strings.Repeat("[1]", n)}
 		case 4:
 			return c15Case{"expr/extreme", "//" + strings.Repeat("n", n*200)}
-		default:
+		case 5:
 			return c15Case{"expr/extreme", strings.Repeat("-", n) + "1"}
 		}
+		// long flat operator chains whose operands do not decide the result early (and ones that do)
+		operand := rng.Pick(g, []string{"0", "1", "//zz", "/r/a", "//a", "false()", "true()", "'x'", "''", "1=2", "//b=2", "$v", "@id", "."})
+		op := rng.Pick(g, []string{" or ", " and ", " or ", " and ", " | ", " = ", " != ", " < ", " + ", " - ", " * ", " div ", " mod "})
+		if op == " | " {
+			operand = rng.Pick(g, []string{"//zz", "/r/a", "//a", "//b", "@id", ".", "$v"})
+		}
+		chain := operand + strings.Repeat(op+operand, n)
+		if g.P(30) {
+			chain += op + rng.Pick(g, []string{"0", "1", "//a", "//zz"})
+		}
+		if g.P(20) {
+			chain = "//a[" + chain + "]"
+		}
+		return c15Case{"expr/chain", chain}
 	case k < 46:
 		label := rng.Pick(g, c15Charsets)
 		if g.P(15) {
@@ -401,7 +417,25 @@ func ChildC15(seed uint64, shard, from, n int, journal string) int {
 	defer out.Flush()
 	enc := json.NewEncoder(out)
 	stats := map[string]int{}
+	// termination monitor: processor time consumed by this process since the current case
+	// started (insensitive to machine load); a case over the budget ends the child with
+	// status 3 and the parent resumes after it
+	var caseCPU atomic.Int64
+	var outMu sync.Mutex
+	caseCPU.Store(cpuNanos())
+	go func() {
+		for {
+			time.Sleep(250 * time.Millisecond)
+			if cpuNanos()-caseCPU.Load() > c15CaseBudget().Nanoseconds() {
+				outMu.Lock()
+				out.Flush()
+				fmt.Fprintln(os.Stderr, "CASE-CPU-BUDGET-EXCEEDED")
+				os.Exit(3)
+			}
+		}
+	}()
 	for i := from; i < n; i++ {
+		caseCPU.Store(cpuNanos())
 		g := rng.New(seed, fmt.Sprintf("C15/%d/%d", shard, i))
 		c := c15Gen(g)
 		jf.Truncate(0)
@@ -410,12 +444,33 @@ func ChildC15(seed uint64, shard, from, n int, journal string) int {
 		r := c15Exec(c)
 		stats[c.Kind+" -> "+r.Outcome]++
 		if strings.HasPrefix(r.Outcome, "VIOLATION") {
+			outMu.Lock()
 			enc.Encode(map[string]any{"v": true, "i": i, "kind": c.Kind, "input": c.Input, "outcome": r.Outcome, "detail": r.Detail})
 			out.Flush()
+			outMu.Unlock()
 		}
 	}
+	outMu.Lock()
+	defer outMu.Unlock()
 	enc.Encode(map[string]any{"stats": stats, "done": true})
 	return 0
+}
+
+// c15CaseBudget: processor time one case may consume (VERIF_CASE_CPU seconds, default 30).
+// On the unchanged tree the slowest generated case takes a few milliseconds.
+func c15CaseBudget() time.Duration {
+	if v, err := strconv.Atoi(os.Getenv("VERIF_CASE_CPU")); err == nil && v > 0 {
+		return time.Duration(v) * time.Second
+	}
+	return 30 * time.Second
+}
+
+func cpuNanos() int64 {
+	var ru syscall.Rusage
+	if syscall.Getrusage(syscall.RUSAGE_SELF, &ru) != nil {
+		return 0
+	}
+	return ru.Utime.Nano() + ru.Stime.Nano()
 }
 
 func c15Run(r *evid.Run, tier string) {
@@ -431,8 +486,8 @@ func c15Run(r *evid.Run, tier string) {
 		go func(s int) {
 			defer wg.Done()
 			from := 0
-			restarts := 0
-			for from < per && restarts < 200 {
+			restarts, overBudget := 0, 0
+			for from < per && restarts < 40 && overBudget < 3 {
 				journal := filepath.Join(dir, fmt.Sprintf("journal-%d", s))
 				cmd := exec.Command(self, "child", "c15", strconv.FormatUint(r.Seed, 10), strconv.Itoa(s), strconv.Itoa(from), strconv.Itoa(per), journal)
 				var stdout, stderr bytes.Buffer
@@ -487,13 +542,20 @@ func c15Run(r *evid.Run, tier string) {
 					input = input[:400] + "…"
 				}
 				if werr == errWatchdog {
-					r.Violate(kind+"/VIOLATION:no-termination", map[string]any{"what": fmt.Sprintf("%s input %q did not return within the 20 min watchdog", kind, input), "shard": s, "index": idx, "kind": kind})
+					// wall-clock watchdog around the whole shard: says nothing about the property
+					r.Inconclusive(fmt.Sprintf("shard %d hit the 20 min wall-clock watchdog at %s input %q", s, kind, input))
+				} else if strings.Contains(stderr.String(), "CASE-CPU-BUDGET-EXCEEDED") {
+					overBudget++
+					r.Violate(kind+"/VIOLATION:no-termination", map[string]any{"what": fmt.Sprintf("%s input %q did not return within %v of processor time", kind, input, c15CaseBudget()), "shard": s, "index": idx, "kind": kind, "input": input})
 				} else {
 					r.Violate(kind+"/VIOLATION:process-abort", map[string]any{"what": fmt.Sprintf("the process died while running %s input %q: %v: %s", kind, input, werr, tail), "shard": s, "index": idx, "kind": kind})
 				}
 				r.Eval(idx - from + 1)
 				from = idx + 1
 				restarts++
+			}
+			if from < per {
+				r.Inconclusive(fmt.Sprintf("shard %d stopped after %d restarts (%d cases over the processor-time budget); %d cases not run", s, restarts, overBudget, per-from))
 			}
 		}(s)
 	}
